@@ -242,8 +242,12 @@ class VCSym(VCBase):
 
     # uninterpreted functions ---------------------------------------------------------
     def uf_int(self, fname, args, lo=None, hi=None, conc=None):
-        key = "%s(%s)" % (fname, ",".join(_argkey(a) for a in args))
-        t = z3.Int("UF|" + key)
+        from .rope import congruent_lookup
+
+        def make():
+            key = "%s(%s)" % (fname, ",".join(_argkey(a) for a in args))
+            return z3.Int("UF|" + key)
+        t = congruent_lookup("int", fname, args, make)
         if lo is not None:
             self.ctx.fact(t >= lo)
         if hi is not None:
@@ -251,7 +255,9 @@ class VCSym(VCBase):
         return SInt(t)
 
     def uf_bytes(self, fname, args, length, conc=None):
-        return Rope([F(fname, args, _simp(_t(length)))])
+        from .rope import congruent_lookup
+        seg = congruent_lookup("bytes", fname, args, lambda: F(fname, args, _simp(_t(length))))
+        return Rope([seg])
 
     def fresh_int(self, base, lo=None, hi=None):
         t = z3.Int(self.ctx.fresh(base))
